@@ -87,19 +87,26 @@ def bcLen : List Nat → Option Nat
     | some m => bcAxis n m
     | none => none
 
+/-- the length of a 1-D value (`none`: 0-d) -/
+def len1d : VarValue Rat → Option Nat
+  | .vector r => some r.length
+  | .scalar _ => none
+
+/-- a value broadcast to the 1-D shape `(n,)`: a 0-d value and an axis of length 1 are stretched -/
+def stretchTo (n : Nat) : VarValue Rat → VarValue Rat
+  | .scalar x => .vector (List.replicate n x)
+  | .vector [x] => .vector (List.replicate n x)
+  | .vector r => .vector r
+
 /-- `np.broadcast_arrays(*values)` of 0-d / 1-D values: when all are 0-d they stay as they are; otherwise all become
     1-D arrays of the common length (an axis of length 1, and a 0-d value, is stretched); `ValueError` when the lengths
     do not broadcast -/
 def broadcastArrays (vals : List (VarValue Rat)) : Py.M (List (VarValue Rat)) :=
   if (allScalar vals).isSome then .ok vals
   else
-    match bcLen (vals.filterMap (fun v => match v with | .vector r => some r.length | .scalar _ => none)) with
+    match bcLen (vals.filterMap len1d) with
     | none => .error .value
-    | some n =>
-      .ok (vals.map (fun v => match v with
-        | .scalar x => .vector (List.replicate n x)
-        | .vector [x] => .vector (List.replicate n x)
-        | .vector r => .vector r))
+    | some n => .ok (vals.map (stretchTo n))
 
 /-- `np.hstack((a, b))`: both arrays are made at least 1-D; 1-D arrays are concatenated, arrays of two or more
     dimensions are put side by side along axis 1 (the other axes must agree); `ValueError` when the numbers of
